@@ -23,7 +23,14 @@
 //	      parent's block, reached through parent(), inherited), inside an included template, inside a for
 //	      body (two iterations), inside an if branch and an else branch, inside an apply block. Same oracle.
 //
-// Every source is rendered a second time behind a 4100-byte comment (second tokenizer).
+//	long: ONE run of 4096 / 32767 / 32768 / 32769 / 65535 / 65536 / 65537 / 100000 / 300000 bytes (thorough: 25
+//	      lengths up to 1 MiB + 1) of a non-periodic record stream as literal text (all slots, all tag kinds),
+//	      as a verbatim body, as a comment body and as a printed context value (alone / next to text / before /
+//	      between / after / inside each undashed tag kind), rendered through Engine.Render, Template.Render,
+//	      and Engine.RenderTo / Template.RenderTo into a bytes.Buffer, a strings.Builder and a plain io.Writer
+//	      that has no WriteString method; every route must give the model's bytes exactly.
+//
+// Every source of the other families is rendered a second time behind a 4100-byte comment (second tokenizer).
 package main
 
 import (
@@ -1017,11 +1024,13 @@ func main() {
 			"esc: every such text of <= 3 (thorough 4) symbols not ending in a backslash before, and every such text after, a backslash-escaped opener (\\{{ x }}, \\{% if %}, \\{# c #}): the output must start with the text before and end with the text after, what lies between is not checked; " +
 			"com: every comment body of <= 3 (thorough 4) symbols of that alphabet plus {{ probe() }}, {% if %}, {{, %}; verb: every verbatim body of <= 3 (thorough 4) items under 4 contexts; " +
 			"place: each of those comment and verbatim bodies again in 13 placements (macro body called directly / via _self / via import-as / via from-import, block plain / overriding / through parent() / inherited, included template, for body, if branch, else branch, apply upper), same oracle. " +
+			"long: one run of 4096 / 32767 / 32768 / 32769 / 65535 / 65536 / 65537 / 100000 / 300000 bytes (thorough: 25 lengths, the neighbours of 4096, 8192, 16384, 1..4 x 32768, 1 MiB) of a non-periodic record stream (ascii page text; every symbol of the alphabet) as literal text in every slot of every tag kind, as a verbatim body, as a comment body and (an escape-proof stream) as a printed context value alone / next to text / before / between / after / inside the 8 undashed tag kinds, each through 8 output routes (Engine.Render, Template.Render, Engine.RenderTo and Template.RenderTo into bytes.Buffer, strings.Builder, a plain io.Writer without WriteString), byte-exact on every route. " +
 			"non-trivial = the text / body is non-empty and admissible as literal text in at least one slot",
 		Assumptions: []string{
 			"a lone { immediately before a tag opener is excluded (maximal munch), as is text that itself contains an opener; what a backslash immediately before an opener and the tag after it render to is left open (undocumented escape) — only the text before the backslash and after the closer is checked (prefix / suffix); a text ending in a backslash before the escaping backslash is excluded",
 			"verbatim content is checked for context independence, absence of context data and evaluated content, and in-order presence of its literal text items; its tag-like parts need not be byte-exact",
-			"bytes outside the 17-symbol alphabet and texts longer than the bound are not explored",
+			"bytes outside the 17-symbol alphabet and texts longer than the bound are not explored, except the long runs: those have two fixed contents per length, not every content",
+			"long runs: a writer is assumed to accept every Write in full; writers that fail or write short are not explored; printed long values avoid the characters an HTML escaper rewrites",
 		},
 		QuickDeadline:    120,
 		ThoroughDeadline: 840,
@@ -1034,6 +1043,16 @@ func main() {
 				pn = append(pn, p.name)
 			}
 			cov["placements"] = strings.Join(pn, ",")
+			lens := longLensQuick
+			if tier == "thorough" {
+				lens = longLensThorough
+			}
+			cov["long_run_lengths"] = fmt.Sprint(lens)
+			var rn []string
+			for _, r := range longRoutes {
+				rn = append(rn, r.name)
+			}
+			cov["long_run_routes"] = strings.Join(rn, ", ")
 		},
 	})
 }
